@@ -79,6 +79,7 @@ class Scenario:
         self.running = False
         self.events = []
         self.ttls = TTLS
+        self.sub_counts = [1, 1, 2]
         self.lost = False
 
     # ---------------- inputs
@@ -108,7 +109,7 @@ class Scenario:
         p = rng.choice(self.peers)
         mc = rng.random() < 0.12
         entries, info = [], []
-        for _ in range(rng.choice([1, 1, 2])):
+        for _ in range(rng.choice(self.sub_counts)):
             sid, iid, maj, _mi = rng.choice(SERVICES)
             egid = rng.choice([5, 5, 6, 9])
             cnt = rng.choice([0, 0, 0, 1, 15])
@@ -191,7 +192,10 @@ class Scenario:
                 self.running = False
                 self.rec.inp(impl.loop.ticks, ("stop",))
                 return "in stop"
+            if any((impl.name(h) or "").startswith("connection_lost") for h in impl.loop.ready_handles()):
+                return None  # a connection loss is still being processed: start() now would be API misuse
             self.running = True
+            self.lost = False
             self.rec.inp(impl.loop.ticks, ("start",))
             return "in start"
         if r < 0.6:
@@ -210,6 +214,18 @@ class Scenario:
         self.announced.add(i)
         self.rec.inp(impl.loop.ticks, ("announce", i))
         return f"in announce {i}"
+
+    def in_announcer(self, impl):
+        """ServiceAnnouncer.stop()/start() directly (stop of a stopped announcer must be a no-op)"""
+        if self.rng.random() < 0.6 or self.running:
+            self.running = False
+            self.rec.inp(impl.loop.ticks, ("annStop",))
+            return "in annStop"
+        if any((impl.name(h) or "").startswith("connection_lost") for h in impl.loop.ready_handles()):
+            return None
+        self.running = True
+        self.rec.inp(impl.loop.ticks, ("annStart",))
+        return "in annStart"
 
     def in_client_sub(self, impl):
         rng = self.rng
@@ -244,7 +260,8 @@ class Scenario:
              "reboot": lambda: self.in_offer(impl, "reboot"), "sub": lambda: self.in_subscribe(impl),
              "stopsub": lambda: self.in_subscribe(impl, "stopsub"), "subreboot": lambda: self.in_subscribe(impl, "subreboot"),
              "find": lambda: self.in_find(impl), "watch": lambda: self.in_watch(impl), "life": lambda: self.in_lifecycle(impl),
-             "csub": lambda: self.in_client_sub(impl), "nak": lambda: self.in_nak(impl)}[k]
+             "csub": lambda: self.in_client_sub(impl), "nak": lambda: self.in_nak(impl),
+             "ann": lambda: self.in_announcer(impl)}[k]
         return f()
 
     # ---------------- scheduler
@@ -275,6 +292,8 @@ class Scenario:
                 ev = self.pick_input(impl)
                 if ev is None:
                     continue
+            elif ev == "run":
+                note_run(self, impl)
             elif ev == "adv":
                 nd = impl.loop.next_deadline()
                 now = impl.loop.ticks
@@ -287,10 +306,10 @@ class Scenario:
                 ev = f"adv {t}"
             yield ev
         # settle naturally and look at the final idle state (and some time later)
-        yield from natural(impl, impl.loop.ticks)
+        yield from natural(impl, impl.loop.ticks, self)
         self.rec.idle(impl.loop.ticks)
         for extra in self.epilogue_times():
-            yield from natural(impl, impl.loop.ticks + extra)
+            yield from natural(impl, impl.loop.ticks + extra, self)
             self.rec.idle(impl.loop.ticks)
 
     def prelude(self, impl):
@@ -300,7 +319,19 @@ class Scenario:
         return [1500, 4000]
 
 
-def natural(impl, until):
+def note_run(sc, impl):
+    """record in the history when a deferred connection_lost part actually runs"""
+    if sc is None:
+        return
+    impl.drain_plumbing()
+    hs = impl.loop.ready_handles()
+    if hs:
+        n = impl.name(hs[0]) or ""
+        if n.startswith("connection_lost:"):
+            sc.rec.inp(impl.loop.ticks, ("connLostRun", n.split(":")[1]))
+
+
+def natural(impl, until, sc=None):
     """exactly asyncio's iteration order: all due timers, then the batch that is ready; jump when idle"""
     for _ in range(100000):
         impl.drain_plumbing()
@@ -311,6 +342,7 @@ def natural(impl, until):
                 yield f"fire {impl.loop.vseq[id(h)]}"
         elif ready:
             for _ in range(len(ready)):
+                note_run(sc, impl)
                 yield "run"
         else:
             nd = impl.loop.next_deadline()
